@@ -72,13 +72,23 @@ Theorem no_deadlock :
 Proof. exact no_deadlock_l. Qed.
 Print Assumptions no_deadlock.
 
-(* FINDING (faithful model of the code as it is): on the UDP server, a shutdown while one address has a suspended
-   handler and a queued datagram makes serve_forever end with an ExceptionGroup (OCrash) although shutdown itself
-   returns normally and the server is stopped. *)
+(* FINDING (faithful model of the code as it is).  Gen/ParamsC18.v (regenerated from datagram.py on every run) says
+   whether the datagram server restarts a client task from the finally clause of a CANCELLED client task.
+   As found it does (udp_restart_guarded = false): a shutdown while one address has a suspended handler and a queued
+   datagram makes serve_forever end with an ExceptionGroup (OCrash), although shutdown itself returns normally and the
+   server is stopped -- "every serve_forever ends cleanly" is refuted by a witness trace.
+   With the proposed fix (udp_restart_guarded = true) no call of any trace ends that way. *)
 Theorem serve_forever_clean_exit_refuted :
+  Gen.ParamsC18.udp_restart_guarded = false ->
   exists s o, run_trace init udp_crash_trace = Some (s, o) /\ In (Ret 0 OCrash) o /\ In (Ret 1 OOk) o /\ ev s = true.
 Proof. exact udp_crash_witness. Qed.
 Print Assumptions serve_forever_clean_exit_refuted.
+
+Theorem serve_forever_clean_exit_when_guarded :
+  Gen.ParamsC18.udp_restart_guarded = true ->
+  forall s l s' o id, step s l = Some (s', o) -> ~ In (Ret id OCrash) o.
+Proof. exact no_crash_when_guarded. Qed.
+Print Assumptions serve_forever_clean_exit_when_guarded.
 
 Example reachable_busy_state :
   exists s, reachable s /\ busy s /\ serves s = [(0, SWait)] /\ dying s = 1.
